@@ -1,5 +1,6 @@
 import IsalVerif.Impl.MhTailC
 import IsalVerif.Lemmas.PadCProofs
+import IsalVerif.Spec.MD
 /-! What `MH_SHA1_TAIL_FUNCTION` / `MH_SHA256_TAIL_FUNCTION` of today's source hashes: the SHA-style padding of the
     multi-hash stream in one or two 1024-byte blocks, then the outer hash over the interim digests. -/
 namespace IsalVerif.MhTailC
@@ -73,5 +74,134 @@ theorem canon_tail (n : Nat) (s : St) (h0 : s.locs 0 < 2^32) (hp : s.part.length
     simp [Z.eval, locW, hand, f1, f2, f3, f4, f4', f4'', f5, f6, f7, hp, hc, hf, c, hl1, hl2, hl4 _ hl2, natLE8_mod, PadC.natLE_bswap, -List.reduceReplicate] at hX
     subst hX
     simp [Out.res, St.setLoc, f7, -List.reduceReplicate]
+
+end IsalVerif.MhTailC
+
+/-! ### the tail's blocks are the standard's padded tail -/
+namespace IsalVerif.MhTailC
+
+theorem poke_eq (buf : Bytes) (off : Nat) (v : Bytes) : poke buf off v = PadC.poke buf off v := rfl
+
+set_option maxRecDepth 8000 in
+/-- **the blocks the tail hashes are the standard's padded tail**: the bytes of the partial block followed by the
+    SHA-style padding of an `n`-byte message to a multiple of 1024 bytes (`MultiHash.mhPad n = mdPad 1024 8 true n`) -/
+theorem tailBlocks_is_standard (n : Nat) (part : Bytes) (hp : part.length = 2048) :
+    (tailBlocks n part).flatten = part.take (n % 1024) ++ mdPad 1024 8 true n := by
+  unfold tailBlocks mdPad
+  have hplt : n % 1024 < 1024 := Nat.mod_lt _ (by decide)
+  generalize hpl : n % 1024 = pl at *
+  simp only [if_true]
+  have hk1 : pl + 1 ≤ 1016 → (1024 - (n + 1 + 8) % 1024) % 1024 = 1015 - pl := by intro h; omega
+  have hk2 : 1016 < pl + 1 → (1024 - (n + 1 + 8) % 1024) % 1024 = 2039 - pl := by intro h; omega
+  have hlf : (natBE 8 (8 * n)).length = 8 := natBE8_length _
+  have hmul : n * 8 = 8 * n := Nat.mul_comm _ _
+  rw [hmul]
+  generalize natBE 8 (8 * n) = lf at *
+  have f7 : 1024 - (pl + 1) = 1023 - pl := by omega
+  rw [f7]
+  have hl1 : (PadC.poke part pl [128]).length = 2048 := by
+    rw [PadC.poke_length _ _ _ (by simp [hp]; omega), hp]
+  have hl2 : (PadC.poke (PadC.poke part pl [128]) (pl + 1) (List.replicate (1023 - pl) 0)).length = 2048 := by
+    rw [PadC.poke_length _ _ _ (by simp [hl1]; omega), hl1]
+  -- the first 1024 bytes after the two stores
+  have hp1 : ∀ j, j < 1024 → (PadC.poke (PadC.poke part pl [128]) (pl + 1) (List.replicate (1023 - pl) 0))[j]? =
+      if j < pl then part[j]? else if j = pl then some 128 else some 0 := by
+    intro j hj
+    rw [PadC.poke_get _ _ _ (by simp [hl1]; omega), PadC.poke_get _ _ _ (by simp [hp]; omega)]
+    simp only [List.length_replicate, List.length_cons, List.length_nil]
+    by_cases h1 : j < pl
+    · have : j < pl + 1 := by omega
+      simp [h1, this]
+    · by_cases h2 : j = pl
+      · subst h2; simp
+      · have h3 : ¬ j < pl + 1 := by omega
+        have h4 : j < pl + 1 + (1023 - pl) := by omega
+        simp only [h1, h2, h3, h4, if_true, if_false]
+        rw [List.getElem?_replicate]; simp; omega
+  by_cases c : 1016 < pl + 1
+  · rw [if_pos c, hk2 c]
+    simp only [List.flatten_cons, List.flatten_nil, List.append_nil, poke_eq]
+    apply List.ext_getElem?
+    intro j
+    have hl3 : (PadC.poke (PadC.poke (PadC.poke part pl [128]) (pl + 1) (List.replicate (1023 - pl) 0)) 0
+        (List.replicate 1024 0)).length = 2048 := by
+      rw [PadC.poke_length _ _ _ (by simp [hl2, -List.reduceReplicate]), hl2]
+    have hl4 : (PadC.poke (PadC.poke (PadC.poke (PadC.poke part pl [128]) (pl + 1) (List.replicate (1023 - pl) 0)) 0
+        (List.replicate 1024 0)) 1016 lf).length = 2048 := by
+      rw [PadC.poke_length _ _ _ (by rw [hlf, hl3]; decide), hl3]
+    by_cases hj : j < 1024
+    · rw [List.getElem?_append_left (by simp [hl2, -List.reduceReplicate]; omega), List.getElem?_take_of_lt hj, hp1 j hj]
+      by_cases h1 : j < pl
+      · simp only [h1, if_true]
+        rw [List.getElem?_append_left (by simp [hp]; omega), List.getElem?_take]; simp [h1]
+      · rw [List.getElem?_append_right (by simp [hp]; omega)]
+        have ht : (List.take pl part).length = pl := by simp [hp]; omega
+        rw [ht]
+        by_cases h2 : j = pl
+        · subst h2; simp
+        · simp only [h1, h2, if_false]
+          have : j - pl = (j - pl - 1) + 1 := by omega
+          rw [this, List.cons_append, List.getElem?_cons_succ, List.getElem?_append_left (by simp; omega),
+            List.getElem?_replicate]
+          simp; omega
+    · rw [List.getElem?_append_right (by simp [hl2, -List.reduceReplicate]; omega)]
+      have ht1 : (List.take 1024 (PadC.poke (PadC.poke part pl [128]) (pl + 1) (List.replicate (1023 - pl) 0))).length = 1024 := by
+        simp [hl2, -List.reduceReplicate]
+      rw [ht1]
+      by_cases hj2 : j < 2048
+      · rw [List.getElem?_take_of_lt (by omega), PadC.poke_get _ _ _ (by rw [hlf, hl3]; decide), PadC.poke_get _ _ _ (by simp [hl2, -List.reduceReplicate])]
+        simp only [List.length_replicate, hlf, Nat.not_lt_zero, if_false, Nat.zero_add, Nat.sub_zero]
+        rw [List.getElem?_append_right (by simp [hp]; omega)]
+        have ht : (List.take pl part).length = pl := by simp [hp]; omega
+        rw [ht]
+        have : j - pl = (j - pl - 1) + 1 := by omega
+        rw [this, List.cons_append, List.getElem?_cons_succ]
+        by_cases h5 : j - 1024 < 1016
+        · have h6 : j - 1024 < 1024 := by omega
+          simp only [h5, h6, if_true]
+          rw [List.getElem?_append_left (by simp; omega), List.getElem?_replicate, List.getElem?_replicate,
+            if_pos (by omega), if_pos (by omega)]
+        · have h6 : j - 1024 < 1016 + 8 := by omega
+          simp only [h5, h6, if_true, if_false]
+          rw [List.getElem?_append_right (by simp; omega)]
+          simp only [List.length_replicate]
+          rw [show j - 1024 - 1016 = j - pl - 1 - (2039 - pl) from by omega]
+      · rw [List.getElem?_eq_none (by simp [hl4, -List.reduceReplicate]; omega), List.getElem?_eq_none]
+        simp [hp, hlf]; omega
+  · rw [if_neg c, hk1 (by omega)]
+    simp only [List.flatten_cons, List.flatten_nil, List.append_nil, poke_eq]
+    apply List.ext_getElem?
+    intro j
+    have hl4 : (PadC.poke (PadC.poke (PadC.poke part pl [128]) (pl + 1) (List.replicate (1023 - pl) 0)) 1016 lf).length = 2048 := by
+      rw [PadC.poke_length _ _ _ (by rw [hlf, hl2]; decide), hl2]
+    by_cases hj : j < 1024
+    · rw [List.getElem?_take_of_lt hj, PadC.poke_get _ _ _ (by rw [hlf, hl2]; decide)]
+      by_cases h5 : j < 1016
+      · simp only [h5, if_true]
+        rw [hp1 j hj]
+        by_cases h1 : j < pl
+        · simp only [h1, if_true]
+          rw [List.getElem?_append_left (by simp [hp]; omega), List.getElem?_take]; simp [h1]
+        · rw [List.getElem?_append_right (by simp [hp]; omega)]
+          have ht : (List.take pl part).length = pl := by simp [hp]; omega
+          rw [ht]
+          by_cases h2 : j = pl
+          · subst h2; simp
+          · simp only [h1, h2, if_false]
+            have : j - pl = (j - pl - 1) + 1 := by omega
+            rw [this, List.cons_append, List.getElem?_cons_succ, List.getElem?_append_left (by simp; omega),
+              List.getElem?_replicate]
+            simp; omega
+      · have h6 : j < 1016 + lf.length := by rw [hlf]; omega
+        simp only [h5, h6, if_true, if_false]
+        rw [List.getElem?_append_right (by simp [hp]; omega)]
+        have ht : (List.take pl part).length = pl := by simp [hp]; omega
+        rw [ht]
+        have : j - pl = (j - pl - 1) + 1 := by omega
+        rw [this, List.cons_append, List.getElem?_cons_succ, List.getElem?_append_right (by simp; omega)]
+        simp only [List.length_replicate]
+        congr 1; omega
+    · rw [List.getElem?_eq_none (by simp [hl4, -List.reduceReplicate]; omega), List.getElem?_eq_none]
+      simp [hp, hlf]; omega
 
 end IsalVerif.MhTailC
